@@ -333,10 +333,22 @@ func run(e *env, r *rand.Rand, caseNo int) (hx.M, error) {
 	}
 	n := 1 + r.Intn(5)
 	mode := []string{"single", "slice", "ptrslice", "batches", "maps"}[r.Intn(5)]
-	preset := m.keymode == "auto" && r.Intn(4) == 0 // all records carry a preset key, or none
+	preset := m.keymode == "auto" && r.Intn(4) == 0 // all records carry a preset key, or none ...
+	// ... or the first npre of them do (slice creates: preset keys before the zero keys keep the
+	// database's numbering of the zero-key records consecutive)
+	npre := 0
+	if preset {
+		npre = n
+	} else if m.keymode == "auto" && mode != "maps" && mode != "single" && n > 1 && r.Intn(4) == 0 && e.dialect != "lastid_forward" {
+		// (the emulated first-id driver derives the first id from the number of rows, which is only right
+		// when every row got a generated key)
+		npre = 1 + r.Intn(n-1)
+	}
 	var recs []rec
+	presets := make([]bool, n)
 	for i := 0; i < n; i++ {
-		recs = append(recs, m.newRecord(r, int64(i+1), preset))
+		presets[i] = i < npre
+		recs = append(recs, m.newRecord(r, int64(i+1), presets[i]))
 	}
 	tx := e.db.Table(m.table)
 	errs := "nil"
@@ -386,7 +398,7 @@ func run(e *env, r *rand.Rand, caseNo int) (hx.M, error) {
 				}
 				v := fv.Interface()
 				switch Kinds[f.Kind].Name {
-				case "upperstr", "point", "kvser", "json_map", "json_struct", "gob_struct", "unixtime":
+				case "upperstr", "point", "kvser", "json_map", "json_struct", "gob_struct", "unixtime", "unixtime_ptr":
 					recs[i].given[f.Name] = "-"
 					continue
 				}
@@ -410,7 +422,7 @@ func run(e *env, r *rand.Rand, caseNo int) (hx.M, error) {
 		if err != nil {
 			return nil, err
 		}
-		o := hx.M{"mk": rc.mk, "given": rc.given, "zero": rc.zero, "raw": raw}
+		o := hx.M{"mk": rc.mk, "given": rc.given, "zero": rc.zero, "raw": raw, "preset": presets[i]}
 		if !mapMode {
 			o["mem"] = m.toks(rc.val)
 			o["memkey"] = m.keyToks(m.toks(rc.val))
